@@ -59,8 +59,11 @@ def run(ctx, rep):
     sp = P.fn('state_sync_process')
     asserts = [b for b in range(len(sp.blocks)) if sp.term(b).op == 'br' and len(sp.term(b).ops) == 3 and 'clear_past_hash' in sp.expr(sp.term(b).ops[0])]
     rep.check(bool(asserts) and sp.bdominates(asserts[0], [c for c in sp.calls() if c.indirect and 'io_start' in sp.expr(c.target)][0].block), 'R-C07-3', 'state_sync_process asserts clear_past_hash before starting', sp.file, '', function='state_sync_process', construct='assert')
+    from .C05 import locate_in_helpers
     for fn in ('scan_file_allocate', 'scan_file_deallocate'):
-        g = P.fn(fn)
+        g = locate_in_helpers(P, P.fn(fn), lambda g_: any(g_.term(b).op == 'br' and len(g_.term(b).ops) == 3 and 'clear_past_hash' in g_.expr(g_.term(b).ops[0]) for b in range(len(g_.blocks))))
+        if g is None:
+            raise AnalysisBroken('%s: the clear_past_hash test was not found (neither inline nor in a static helper)' % fn)
         rep.analysed(g)
         ok = False
         for b in range(len(g.blocks)):
@@ -73,12 +76,11 @@ def run(ctx, rep):
         rep.check(ok, 'R-C07-3', '%s: inherited hash invalidated when clear_past_hash is not set' % fn, g.file, '', function=fn, construct='invalidate inherited')
 
     # the loader's clearing of indeterminate hashes is effective: nothing rewrites block->hash after it in the same iteration
-    rep.rule('R-C07-3r', 'state_read_content: with clear_past_hash, every CHG/DELETED (and REP under --force-nocopy) hash is left INVALID: the invalidation is guarded by the flag and no later write of the same hash field follows it in the iteration', 3)
+    rep.rule('R-C07-3r', 'state_read_content: with clear_past_hash, every CHG/DELETED (and REP under --force-nocopy) hash is left INVALID: the invalidation is guarded by the flag and no later write of the same hash field follows it in the iteration', 2)
     rc = P.fn('state_read_content')
     rep.analysed(rc)
     inv = list(rc.calls('hash_invalid_set'))
-    if len(inv) < 3:
-        raise AnalysisBroken('state_read_content: expected three hash invalidations, found %d' % len(inv))
+    past_hash_cleared_rule(P, rep, 'R-C07-3d')
     from ..guards import guards_of
     def hash_writers(f):
         res = []
@@ -234,3 +236,43 @@ def rule_finished_only_processed(P, rep, rid):
     need = 2
     rep.check(hd is not None and n_ok >= need, rid, 'file_post: FINISHED set only when the file is neither excluded nor skipped as unsynced', st.loc(),
               '%d skip tests precede the mark (need %d); flag tests evaluated only after the mark: %s' % (n_ok, need, later), function='file_post', construct='finished only processed')
+
+
+def past_hash_cleared_rule(P, rep, rid):
+    """sync loads the content with clear_past_hash: every block restored in a state whose hash describes PAST data (CHG, DELETED)
+    gets its hash invalidated in the same iteration of the loader, under the flag -- otherwise a hash saved before an interrupted
+    sync is trusted afterwards and parity updates are skipped"""
+    from ..guards import guards_of
+    from .C06 import blk_value
+    rc = P.fn('state_read_content')
+    st = blk_value(P)
+    known = set(st.values())
+    sets = list(rc.calls('block_state_set'))
+    deleted = {rc.const_of(c.ops[1]) for c in sets if rc.const_of(c.ops[1]) not in known and rc.const_of(c.ops[1]) is not None}
+    past = {st['CHG']: 'CHG'}
+    for d in deleted:
+        past[d] = 'DELETED'
+    rep.rule(rid, 'state_read_content: each loop that restores blocks in a past-hash state (CHG, DELETED) invalidates their hash under clear_past_hash', 2)
+    inv = list(rc.calls('hash_invalid_set'))
+    done = set()
+    for c in sets:
+        k = rc.const_of(c.ops[1])
+        if k not in past:
+            continue
+        h = rc.loop_of(c.block)
+        if h is None or (h, past[k]) in done:
+            continue
+        # a state produced from another state by an option (REP -> CHG under --force-nocopy) carries its own invalidation: skip sets that are themselves guarded by clear_past_hash
+        if any(a == 'state->clear_past_hash' and p for a, p in guards_of(rc, c)):
+            continue
+        done.add((h, past[k]))
+        ok = False
+        for x in inv:
+            if x.block in rc.loops[h] and rc.expr(x.ops[0]) == '&block->hash[0]':
+                g = dict(guards_of(rc, x))
+                extra = [a for a in g if a.startswith('state->opt.') or 'block_state_get' in a]
+                if g.get('state->clear_past_hash') is True and not extra:
+                    ok = True
+        rep.check(ok, rid, 'blocks restored as %s have their hash invalidated under clear_past_hash' % past[k], c.loc(),
+                  'invalidation present in the same loop' if ok else 'no hash_invalid_set(block->hash) guarded only by clear_past_hash in the loop that restores %s blocks: the hash of data that may no longer be in the parity is trusted by the next sync' % past[k],
+                  function='state_read_content', construct='%s hash cleared on load' % past[k])
